@@ -86,7 +86,7 @@ impl Monitor for C20 {
     }
     fn streams(&self, tier: Tier, budget: f64) -> Vec<Stream> {
         let n = match tier {
-            Tier::Quick => 40_000,
+            Tier::Quick => 250_000,
             Tier::Thorough => 2_000_000,
         };
         vec![Stream::new("documents", scaled(n, budget))]
